@@ -95,8 +95,9 @@ def lit(v):
     return ('lit', v)
 
 class Interp:
-    def __init__(self, facts, body, summaries=None, unroll=1, inline=None, field_hook=None):
+    def __init__(self, facts, body, summaries=None, unroll=1, inline=None, field_hook=None, for_once=False):
         self.field_hook = field_hook
+        self.for_once = for_once      # `for` loops run exactly once over a generic element (shape extraction)
         self.facts = facts
         self.body = body            # hirq.Body
         self.summaries = summaries or []   # list of callables (interp, callee, args, node, st) -> [Out] | None
@@ -137,7 +138,7 @@ class Interp:
         if rec is None or getattr(self, '_depth', 0) > 6:
             return None
         B = hirq.Body(self.facts, rec)
-        sub = Interp(self.facts, B, self.summaries, self.unroll, self.inline, self.field_hook)
+        sub = Interp(self.facts, B, self.summaries, self.unroll, self.inline, self.field_hook, self.for_once)
         sub._depth = getattr(self, '_depth', 0) + 1
         env = {}
         states = [St(env, st.heap, st.ev, st.pc, st.ctr)]
@@ -486,6 +487,20 @@ class Interp:
             if o.kind != 'val':
                 outs.append(o); continue
             itv = o.val
+            if self.for_once:
+                el, s1 = o.st.fresh('elem')
+                el = ('elem', itv, el[2])
+                for kind, s2 in self.match(e['pat'], el, s1):
+                    if kind == 'no':
+                        continue
+                    for b in self.ev(e['body'], s2):
+                        if b.kind in ('val', 'cont'):
+                            outs.append(Out('val', UNIT, b.st))
+                        elif b.kind == 'brk' and (b.target is None or b.target == e.get('id')):
+                            outs.append(Out('val', UNIT, b.st))
+                        else:
+                            outs.append(b)
+                continue
             def one(s, itv=itv):
                 res = [Out('brk', UNIT, s.assume(('for-more', e.get('id'), s.ctr), False), e.get('id'))]
                 el, s1 = s.fresh('elem')
@@ -609,6 +624,16 @@ class Interp:
             v = hirq.short_def(f.get('ctor_of') or f.get('def'))
             return [Out('val', ('ctor', v, tuple(vals)), s) for vals, s in res] + abn
         cal = callee_of(e)
+        if cal == 'lber::write::encode_into' and len(e['args']) == 2:
+            buf = hirq.peel_refs(e['args'][0])
+            if buf['k'] == 'Path' and buf.get('res') == 'local':
+                outs = []
+                for o in self.ev(e['args'][1], st):
+                    if o.kind != 'val':
+                        outs.append(o); continue
+                    s2 = o.st.set(buf['bind'], ('encoded', o.val)).event(('call', cal, (('local', buf['bind']), o.val), e))
+                    outs.append(Out('val', ('ctor', 'Ok', (UNIT,)), s2))
+                return outs
         if cal is None:
             # indirect call through a value
             res, abn = self.seq([f] + e['args'], st)
@@ -1057,6 +1082,8 @@ def builtin_summary(I, cal, args, node, st):
                 else:
                     outs.append(o)
         return outs
+    if name in ('is_empty', 'len') and args and args[0][0] == 'vec' and cal.startswith('alloc::vec::Vec'):
+        return [Out('val', ('lit', len(args[0][1]) == 0 if name == 'is_empty' else len(args[0][1])), st)]
     if name in ('box_assume_init_into_vec_unsafe', 'into_vec'):
         arr = leaves(('x',) + tuple(args), lambda x: x[0] == 'array')
         if arr:
